@@ -31,11 +31,11 @@ ASSUMPTIONS = [
     "a module is self-contained: it uses only types it declares or imports itself",
 ]
 FLOORS = {
-    "nested_or_dotted": 0.15,
+    "nested_or_dotted": 0.10,
     "module_with_extras": 0.10,
-    "fault": 0.25,
+    "fault": 0.15,
     "fault_below_depth1": 0.05,
-    "relative_path": 0.20,
+    "relative_path": 0.15,
     "same_file_name_in_different_dirs": 0.05,
     "identical_modules_in_different_dirs": 0.02,
 }
